@@ -235,12 +235,17 @@ def registries(c):
         cls = rfc7797.JWSRegistry if c["rfc7797"] else jws.JWSRegistry
         if hr is None and strict and c["seed"] % 2:
             return {"algorithms": ALL_JWS}
+        if c["seed"] % 4 == 1:
+            return {"registry": cls(hr, ALL_JWS, strict)}       # positionally: header_registry, algorithms, strict_check_header
         if c["seed"] % 3 == 0:
             # the caller's registry together with a list of names: for JWS the registry (and its header rules) stays in charge
             return {"registry": cls(header_registry=hr, algorithms=ALL_JWS, strict_check_header=strict), "algorithms": ALL_JWS}
         return {"registry": cls(header_registry=hr, algorithms=ALL_JWS, strict_check_header=strict)}
     if hr is None and strict and c["seed"] % 2 and c.get("multi") != "any":
         return {"algorithms": jweplan.ALL_NAMES}
+    if c["seed"] % 4 == 0:
+        # the documented parameter order, given positionally: header_registry, algorithms, verify_all_recipients, strict_check_header
+        return {"registry": jwe.JWERegistry(hr, jweplan.ALL_NAMES, c.get("multi") != "any", strict)}
     return {"registry": jwe.JWERegistry(header_registry=hr, algorithms=jweplan.ALL_NAMES, strict_check_header=strict, verify_all_recipients=c.get("multi") != "any")}
 
 
